@@ -314,7 +314,7 @@ pub fn execute(c: &Call) -> String {
         }
         Call::Held { which, bump } => own::held(*which, *bump),
         Call::Graph(g) => {
-            let case = crate::props::graphs::GraphCase { g: g.clone(), tracked_header: g.labels.len() % 2 == 0, tagged: g.labels.len() % 3 == 0, sentinel: g.labels.len() % 4 == 1, fault_sel: 3, fault_kind: 0 };
+            let case = crate::props::graphs::GraphCase { g: g.clone(), tracked_header: g.labels.len() % 2 == 0, tagged: g.labels.len() % 3 == 0, sentinel: g.labels.len() % 4 == 1, seq: g.labels.len() % 5 == 2, fault_sel: 3, fault_kind: 0 };
             match crate::props::graphs::check_graph(&case, &mut Acc::new(), false) {
                 Verdict::Fail(e) => format!("graph-fail {e}"),
                 _ => "graph-ok".to_string(),
